@@ -8,11 +8,54 @@ import numpy as np
 from .. import gen, impl, oracle, progs, ser, stream
 
 ID = "C01"
-LEVEL = "translation_validation"
-PROPS_MODULE = None
-THEOREMS = []
-LEAN_FILES = []
-PLANNED = ["Prog.preserves_valid (per-operation validity preservation, induction over programs)"]
+LEVEL = "proof"
+PROPS_MODULE = "SymmModel.Props.C01"
+THEOREMS = [
+    "SymmModel.C01.transposeA_valid",
+    "SymmModel.C01.transposeF_valid",
+    "SymmModel.C01.conjA_valid",
+    "SymmModel.C01.conjF_valid",
+    "SymmModel.C01.daggerF_valid",
+    "SymmModel.C01.sectorCharge_conj",
+    "SymmModel.C01.conj_wfB",
+    "SymmModel.C01.phaseFlip_valid",
+    "SymmModel.C01.phaseTranspose_valid",
+    "SymmModel.C01.phaseSector_valid",
+    "SymmModel.C01.phaseGlobal_valid",
+    "SymmModel.C01.phaseSync_valid",
+    "SymmModel.C01.expandDims_none_valid",
+    "SymmModel.C01.expandDims_some_valid",
+    "SymmModel.C01.expandDims_odd_charge_invalid",
+    "SymmModel.C01.squeeze_valid",
+    "SymmModel.C01.squeeze_needs_phase_keys_in_tables",
+    "SymmModel.C01.tensordotBlockwise_valid",
+    "SymmModel.C01.tensordotBlockwise_valid_abelian_part",
+    "SymmModel.C01.tensordotA_valid",
+    "SymmModel.C01.tensordotF_valid",
+    "SymmModel.C01.matmulA_valid",
+    "SymmModel.C01.matmulF_valid",
+    "SymmModel.C01.dropMisaligned_valid",
+    "SymmModel.C01.syncCharges_valid",
+    "SymmModel.C01.multiplyDiagonal_valid",
+    "SymmModel.C01.binaryBlockwise_valid",
+    "SymmModel.C01.binaryBlockwise_valid_fits",
+    "SymmModel.C01.qrA_valid",
+    "SymmModel.C01.svdA_valid",
+    "SymmModel.C01.eighA_valid",
+    "SymmModel.C01.matrix_sector_injective",
+    "SymmModel.C01.calcFuseBlockInfo_wf",
+    "SymmModel.C01.fuseCore_valid",
+    "SymmModel.C01.fuseA_valid",
+    "SymmModel.C01.fuseF_valid",
+    "SymmModel.C01.unfuseA_valid",
+    "SymmModel.C01.unfuseF_valid",
+    "SymmModel.C01.unfuseAllA_valid",
+    "SymmModel.C01.unfuseAllF_valid",
+    "SymmModel.C01.Prog.preserves_valid",
+    "SymmModel.C01.Op.preserves_valid"
+]
+LEAN_FILES = ["SymmModel.Props.C01", "SymmModel.Proofs.ValidLemmas", "SymmModel.Proofs.ValidOps", "SymmModel.Proofs.ValidTdot", "SymmModel.Proofs.ValidMore", "SymmModel.Proofs.ValidTdotF", "SymmModel.Proofs.ValidLinalg", "SymmModel.Proofs.ValidFuse", "SymmModel.Proofs.ValidFuse2", "SymmModel.Proofs.ValidFuseF", "SymmModel.Proofs.ValidTdotFused", "SymmModel.Proofs.ValidMisc", "SymmModel.Proofs.ValidProg"]
+PLANNED = ["fuse in mode=concat (index and charge parts are mode independent and done)", "einsum", "solve", "svd_truncated / applyCounts (proved in Props/C11 as applyCounts_valid)", "reshape", "align_axes"]
 RULE = ("random programs (length <= 6) over every public operation incl. reshape and the decompositions, all "
         "symmetries (Z4 and generic classes included), abelian and fermionic, sparse, pending signs, odd charges; "
         "every array returned along each program is serialised raw (stored blocks, sign table, labels, index and "
